@@ -29,6 +29,12 @@ VConsistent(obs) ==
     /\ x.ga <=> x.i = 0                            \* get<T>() is non-null exactly when T is active
     /\ x.gi <=> x.i = 1
     /\ x.gb <=> x.i = 2
+    /\ x.cga = x.ga /\ x.cgi = x.gi /\ x.cgb = x.gb     \* const and index-based accessors agree with get<T>()
+    /\ x.g0 = x.ga /\ x.g1 = x.gi /\ x.g2 = x.gb
+    /\ (x.i # -1 => x.sg = x.val)                         \* std::get<T> / std::get<I> deliver the active element
+    /\ (x.any_ai <=> x.i \in {0, 1})                       \* IfAnyOf<A, int>::Get: true exactly for those alternatives,
+    /\ (x.any_ai => x.any_t = x.i /\ x.any_v = x.val)      \*   delivering the active value
+    /\ (x.any_b <=> x.i = 2) /\ x.any_bc = (IF x.i = 2 THEN 1 ELSE 0)   \* IfAnyOf<B>::Call: the op runs once iff B is active
     /\ x.isa <=> x.i = 0
     /\ x.isi <=> x.i = 1
     /\ x.isb <=> x.i = 2
@@ -42,6 +48,14 @@ RConsistent(obs) ==
     /\ ~(x.hv /\ x.he)
     /\ x.bool <=> x.hv
     /\ x.he => x.err # 0                           \* an error other than None
+    /\ ~x.he => x.err = 0
+\* Result<E, void> (Status<void>): no value; bool means "no error"
+RVConsistent(obs) ==
+  \A s \in Slots : obs[s].ex =>
+    LET x == obs[s] IN
+    /\ ~x.hv
+    /\ x.bool <=> ~x.he
+    /\ x.he => x.err # 0
     /\ ~x.he => x.err = 0
 HProj(o) == [slots |-> [s \in Slots |-> IF o.obs[s].ex THEN [r |-> o.obs[s].val] ELSE None],
              closed |-> [r \in 0..(NRes - 1) |-> o.closed[r + 1]], released |-> [r \in 0..(NRes - 1) |-> o.released[r + 1]]]
@@ -58,6 +72,11 @@ VFold(e, pre, i) ==
          \cup Tag(o.alive = VAlive(post), "live-elements:" \o o.op)
          \cup Tag(o.dd = 0, "double-destruction:" \o o.op)
          \cup Tag(o.du = 0, "dead-element-used:" \o o.op)
+         \cup (IF o.op \in {"swap_a", "take_a"}
+               THEN LET was == pre[o.o + 1] IN
+                    Tag(o.did <=> was.i = 0, "if-any-of:" \o o.op)
+                    \cup Tag(o.out = (IF was.i = 0 THEN was.v ELSE o.val), "if-any-of-value:" \o o.op)
+               ELSE {})
          \cup (IF o.op = "visit" THEN Tag(o.opvc = 1 /\ o.opvt = pre[o.o + 1].i /\ (o.opvt = -1 \/ o.opval = pre[o.o + 1].v), "visit") ELSE {})
          \cup VFold(e, post, i + 1)
 
@@ -83,7 +102,7 @@ RFold(e, pre, i) ==
   ELSE LET o == e.ops[i]
            post == RProj(o.obs) IN
     IF Has(o, "bad") \/ ~RPre(pre, o) THEN Tag(post = pre, "inapplicable-op-changed-state") \cup RFold(e, post, i + 1)
-    ELSE Tag(RConsistent(o.obs), "observers:" \o o.op)
+    ELSE Tag(IF e.machine = "result_void" THEN RVConsistent(o.obs) ELSE RConsistent(o.obs), "observers:" \o o.op)
          \cup Tag(RPost(pre, o, post, o.threw), "state:" \o o.op \o (IF o.threw THEN ":threw" ELSE ""))
          \cup Tag(o.alive = RAlive(post), "live-elements:" \o o.op)
          \cup Tag(o.dd = 0, "double-destruction:" \o o.op)
@@ -126,7 +145,7 @@ Fails(e) ==
   IF e.e \in {"UB", "Crash", "Exc", "Timeout", "BadCmd", "Race"} THEN {"abnormal"}
   ELSE CASE e.e = "OBJ" /\ e.machine = "variant" -> VFold(e, InitSlots, 1)
          [] e.e = "OBJ" /\ e.machine \in {"optional", "optional_int", "entry"} -> OFold(e, InitSlots, 1)
-         [] e.e = "OBJ" /\ e.machine = "result" -> RFold(e, InitSlots, 1)
+         [] e.e = "OBJ" /\ e.machine \in {"result", "result_void"} -> RFold(e, InitSlots, 1)
          [] e.e = "OBJ" /\ e.machine \in {"uhandle", "ufile"} -> HFold(e, HInit, 1)
          [] e.e = "CMP" -> CmpFails(e)
          [] e.e = "MSG" -> MsgFails(e)
